@@ -763,6 +763,7 @@ def option_sets(scratch):
         "watch-cpu": ["-W", "cpu"],
         "signal-trigger": ["--signal", "SIGUSR1@finish"],
         "hide": ["-H", "f1"],
+        "logfile": ["--logfile", os.path.join(scratch, "c01_uftrace.log")],      # libmcount logs to an inherited descriptor (UFTRACE_LOGFD)
         "fparg": ["-A", "^f[0-9]+$@fparg1/64", "-R", "^f[0-9]+$@retval/f64"],
         "time-auto-args": ["-t", "1us", "-a"],
         "backtrace": ["-T", "f1@color=red,backtrace"],
@@ -897,8 +898,8 @@ def e2e_plan(ctx):
     """list of (program params, [(mode, opt, optset, live)])"""
     rng = ctx.rng
     plan = []
-    nprog = ctx.n(8, 36)
-    per = ctx.n(10, 24)
+    nprog = ctx.n(7, 30)
+    per = ctx.n(9, 24)
     osets = [o for o in option_sets(ctx.scratch) if not o.startswith("args-") and not o.startswith("max-stack-")
              and o not in ("finish", "script-fp", "recover-rec")]
     for pi in range(nprog):
@@ -955,9 +956,11 @@ def e2e(ctx, objdir):
     for si, name in enumerate(sorted(SC.SCENARIOS)):
         key = "s_" + name
         sources[key] = SC.source(name)
-        for _ in range(ctx.n(1, 4)):
+        for rep in range(ctx.n(1, 4)):
             mode = ctx.rng.choice(["pg", "fentry", "cyg", "patchable", "cyg" if name.startswith("ovf") else "fentry-nop"])
             oset = ctx.rng.choice(SC.PLAN[name])
+            if name == "fds" and rep == 0 and oset == "logfile":
+                oset = "plain"               # at least one run in which libmcount logs to the program's own stderr
             if mode == "cyg" and oset in ("args", "auto-args"):
                 oset = "plain"
             opt = ctx.rng.choice(["-O1", "-O2"])
@@ -1089,6 +1092,9 @@ def common_meta(ctx):
         "coq/theories/C01/Life.v: hand-written model of the per-thread life cycle (mcount_prepare, the hooks' get_thread_data / "
         "guard preamble, mtd_dtor as glibc calls it at thread exit: key value, recursion marker, dead), tied in-process on new "
         "threads that really exit, with the harness' own key destructor running call trees after libmcount's",
+        "coq/theories/C01/Fds.v: hand-written model of the descriptor table shared with libmcount (kernel: lowest-free rule, EBADF; "
+        "libmcount: own descriptors at the top of the table, close() wrapper swallowing a close of the pipe) - tied end-to-end only "
+        "(scenario fds, corpus fd-numbers-*)",
         "coq/theories/C01/ArchCtx.v: semantics of movsd/movq/movdqu/movups/vmovdqu/vmovdqu64 on 512-bit registers for "
         "the generated save/restore lists (legacy-SSE loads keep bits 128+, VEX/EVEX loads clear bits above the vector length)",
         "harness/c/c01_harness.c, props/c01.py, props/c01_progs.py (drivers, generators, comparison)",
@@ -1121,6 +1127,9 @@ def common_meta(ctx):
         "every traced thread has a few KB (about 6 KB measured) of stack below the frame of a hooked function for the "
         "stub and the hook (a thread created with PTHREAD_STACK_MIN that uses most of it itself overflows under "
         "tracing: resource limit, not modelled)",
+        "descriptors: the traced program keeps fewer than RLIMIT_NOFILE - 32 descriptors open and does not close/dup2 onto/inspect "
+        "descriptors it did not open (libmcount's pipe, log and debug-info descriptors sit in the top 32; a close of the pipe is "
+        "swallowed and answers 0 instead of EBADF)",
         "MXCSR: control and status bits are what the wrappers' stmxcsr/ldmxcsr pair gives back; the x87 control word "
         "and x87 status are left to the ABI (libmcount is built -mgeneral-regs-only; libc callees keep the control word)",
     ]
@@ -1137,7 +1146,7 @@ def run(ctx):
 
     # ---- (a) shadow-stack trees
     scases = []
-    n = ctx.n(160, 1200)
+    n = ctx.n(130, 1000)
     groups = {}
     for i in range(n):
         shape = SHAPES[i % len(SHAPES)]
